@@ -80,10 +80,10 @@ PkpFromCommitment(ids, commit) ==
 -----------------------------------------------------------------------------
 (* round1.rs *)
 
-\* commit(share, rng): two 32-byte draws (hiding first), nonce = H3(bytes || share)
-Commit(ro, share, b1, b2) ==
-  LET k1 == KeyH3(Rand32(b1), share)
-      k2 == KeyH3(Rand32(b2), share)
+\* commit(share, rng): two 32-byte draws r1, r2 (hiding first), nonce = H3(bytes || share)
+Commit(ro, share, r1, r2) ==
+  LET k1 == KeyH3(r1, share)
+      k2 == KeyH3(r2, share)
   IN IF k1 \notin DOMAIN ro THEN Need(k1, DomH3)
      ELSE IF k2 \notin DOMAIN ro THEN Need(k2, DomH3)
      ELSE Ok([hiding |-> ro[k1], binding |-> ro[k2], D |-> ro[k1], E |-> ro[k2]])
